@@ -2,7 +2,7 @@
 
 Spec: spec/PwdHash.tla (symbolic hashing: spin loop as a state machine vs the closed verifier term vs
 the standard's recursion; fresh salts; legacy attribute removed; save/load), MC_PwdHash.cfg
-(exhaustive), MC_PwdHash_replay.cfg (behaviours to run on the library).
+(exhaustive; thorough: also MC_PwdHash_deep.cfg), MC_PwdHash_replay.cfg (behaviours to run on the library).
 Conformance: harness/src/bin/pwdhash.rs drives set_password / set_workbook_password /
 set_revisions_password, the writers and the reader; this module projects the written packages with
 zipfile + expat, lets pydec/pwdhash_eval.py evaluate the specification's verifier term (the JSON TLC
@@ -249,7 +249,7 @@ def gen_cases(chk, replays):
     nontrivial = sorted((r for r in replays if any(s["a"] == "Set" for s in r)),
                         key=lambda r: json.dumps(r, sort_keys=True))     # TLC's print order is not deterministic
     rng.shuffle(nontrivial)
-    for r in nontrivial[:(600 if thorough else 30)]:
+    for r in nontrivial[:(400 if thorough else 30)]:
         bind = {"p1": rng.choice(classes)[1], "p2": rng.choice(classes)[1]}
         if bind["p1"] == bind["p2"]:
             bind["p2"] = bind["p2"] + "2"
@@ -265,7 +265,7 @@ def gen_cases(chk, replays):
                 steps.append(_load(rng))
         cases.append({"base": "new", "steps": steps, "family": "tlc-replay"})
     # C: random histories with random Unicode passwords
-    for _ in range(1500 if thorough else 30):
+    for _ in range(1000 if thorough else 30):
         base = rng.choice(["new", "new", "new", "sheet_lock", "book_lock"])
         steps, isset, saved = [], set(BASES[base]), False
         for _ in range(rng.randint(3, 9)):
@@ -482,6 +482,9 @@ def judge(chk, cases, term, with_anchors=True):
 
 def run(chk):
     term = get_term(chk)
+    if chk.tier == "thorough":     # deeper exhaustive run: 3 calls, 4 salts, 3 spins
+        vlib.tlc_mc("MC_PwdHash", "MC_PwdHash_deep.cfg", workers=4,
+                    must_take=["SetLegacy", "BeginSet", "SpinStep", "FinishSet", "Save", "Load"], check=chk)
     rp = vlib.run_tlc("MC_PwdHash", "MC_PwdHash_replay.cfg", workers=4)
     if not rp.ok or not rp.replays:
         raise vlib.ToolError("replay emission failed: " + str(rp.violation))
